@@ -19,20 +19,29 @@ CHECKS = {
              'flat offsets of the N-d read equal numpy\'s selection in order, result size, no offset outside the stored array; '
              'completeness of the subscript gate: verify_slice / verify_subscript (Spec and the regenerated Python) accept exactly the '
              'declaratively supported set - non-zero step, bounds in [-n, n], non-empty numpy selection - and raise otherwise (hand '
-             'model, tied by correspondence with verify_subscript, NumpyArraySegment reads and numpy); the composition inside the '
-             'segment classes is tied by a numpy oracle over random segment trees and readers.',
+             'model, tied by correspondence with verify_subscript, NumpyArraySegment reads and numpy); and the refinement theorem for the '
+             'composition inside the segment classes: for every well-formed segment tree (array / memmap / file-read leaves, reverse + '
+             'transpose, subsets with and without squeeze, band aggregates, block mosaics with holes and overlaps, complex IQ/QI pairs), '
+             'any rank, shapes and normal subscript, read t ts = select (full t) ts (same shape, same elements, same order), advertised '
+             'shapes = shapes of the full reads, reads never leave the stored arrays (Spec.Segment, a hand mirror of data_segment.py tied '
+             'by provenance correspondence on random trees every run); a numpy oracle over random segment trees and readers covers '
+             'the rest.',
         design='DESIGN.md 3.1, 6/C01',
-        note='proved: per-axis kernels (Spec and Gen), N-d subscript expansion and flat-offset selection (Spec). Not a theorem yet: the '
-             'segment-tree composition (reorientation / subset / band / block aggregates; checked against numpy on random trees each '
-             'run), JPEG/HDF5 segments. ' + TB,
+        note='proved: per-axis kernels (Spec and Gen), N-d subscript expansion and flat-offset selection (Spec). The segment-tree model is hand-written (no translator): its '
+             'fidelity is the provenance correspondence. Oracle only: complex with the band dimension kept, MP/PM and LUT format '
+             'functions, block arrangements with step -1, raw-basis subsets, JPEG/HDF5 segments. ' + TB,
         technique='Lean 4 proof (induction/arith over Int) + py->Lean translator bridge + numpy-oracle differential'),
     'C07': dict(
         text='Lean 4 history theorems over a scatter model of writes: chunks on pairwise distinct raw positions commute, any permutation of '
              'a partition equals one whole-image write, every written sample is read back at its position, untouched positions keep their '
              'content, and the sample counter reports fully-written exactly when every position has been written (with the stated limit: a '
              'repeated chunk is not detected). The chunk -> raw position arithmetic is the C01 kernel set (proved and bridged to the '
-             'regenerated Python). The hypothesis that each real write is such a scatter is validated by observing every write on random '
-             'writable segment trees and replaying the observed history in the Lean model.',
+             'regenerated Python). Routing theorem for arbitrary writable segment trees (Spec.Segment: leaves, reverse + transpose, '
+             'subsets, band aggregates, tiling mosaics): the assignments a write performs are exactly sample-shown-at ts[idx] <- d[idx], '
+             'after the write the full image is the old one updated at exactly the selected positions, chunks on disjoint positions '
+             'commute (feeding the history theorems). The hypothesis that each real write is such a scatter is validated by observing '
+             'every write on random writable segment trees, replaying the observed history in the Lean model, and by the write '
+             'correspondence of the segment model.',
         design='DESIGN.md 3.2, 6/C07',
         note='proved: history/accounting theorems (unbounded in chunk count, order, store size) and per-axis kernels. Tied by correspondence: '
              'observed assignment histories vs the scatter model; numpy provenance oracle for the N-d routing. ' + TB,
